@@ -459,11 +459,17 @@ def _yield_children(rec, rr):
                     # was relocated to; we do that by following the child_link,
                     # then going up to the parent and finding the entry that
                     # links to the same one as this one.
-                    cl_parent = child.rock_ridge.cl_to_moved_dr.parent
-                    for cl_child in cl_parent.children:
-                        if cl_child.rock_ridge is not None and cl_child.rock_ridge.name() == child.rock_ridge.name():
-                            child = cl_child
-                            break
+                    cl_moved = child.rock_ridge.cl_to_moved_dr
+                    cl_parent = cl_moved.parent
+                    if any(cl_child is cl_moved for cl_child in cl_parent.children):
+                        # Several relocated directories may have the same
+                        # Rock Ridge name; the link says which one it is.
+                        child = cl_moved
+                    else:
+                        for cl_child in cl_parent.children:
+                            if cl_child.rock_ridge is not None and cl_child.rock_ridge.name() == child.rock_ridge.name():
+                                child = cl_child
+                                break
                     # If we didn't find the relocated entry in the parent of the
                     # moved entry, weird; just yield the one we would have anyway.
 
